@@ -33,6 +33,13 @@ Shapes == {"multidisc", "manyprops", "manyaliases", "manyroots", "manyenums", "m
 WInit == shape \in Shapes /\ width \in 2..(NExports + 3) /\ kinds = <<>> /\ style = "none"
 WSpec == WInit /\ [][UNCHANGED gvars]_gvars
 
+\* Part 1c: computed types over recursive operands - the engine writes them back under generated names (RecursiveGeneratedN),
+\* so the output shows whatever numbering state outlives a compilation.  A state is (recursive shape, type operator).
+RecShapes == {"tuplerest", "optnext", "nullnext", "kids", "twokids", "twotuples"}
+RecOps    == {"exclude", "nonnullable", "keyof", "index"}
+RInit == shape \in RecShapes /\ style \in RecOps /\ kinds = <<>> /\ width = 0
+RSpec == RInit /\ [][UNCHANGED gvars]_gvars
+
 \* ------------------------------------------------------------------ the property as a monitor over observations
 \* obs: sequence of [proj, order, pid, digest]
 FunctionOfContents(obs) ==
